@@ -118,11 +118,14 @@ fn resolve_foreign_keys(
     foreign_keys_paths: BTreeSet<(Key, KeyPath)>,
 ) -> Result<()> {
     for (locale, value_path) in foreign_keys_paths {
-        let value = values
-            .get_value_at(&locale, &value_path)
-            .or_else(|| get_merged_plural_at(values, &locale, &value_path))
-            .unwrap_at("resolve_foreign_keys_1");
-        value.resolve_foreign_key(values, &locale, default_locale, &value_path)?;
+        // the registered key may since have been merged into a plural, and its name can also be the name of
+        // another (merged) key (`x_one` -> `x`, but `x_one_one`/`x_one_other` -> `x_one`): resolve both.
+        let value = values.get_value_at(&locale, &value_path);
+        let merged_plural = get_merged_plural_at(values, &locale, &value_path);
+        value.or(merged_plural).unwrap_at("resolve_foreign_keys_1");
+        for value in value.into_iter().chain(merged_plural) {
+            value.resolve_foreign_key(values, &locale, default_locale, &value_path)?;
+        }
     }
     Ok(())
 }
